@@ -85,6 +85,7 @@ func stressWorker(id int, rng *rand.Rand, st storage.Store, n int, shared []*sha
 		cur = h
 	}
 	for i := 0; i < n; i++ {
+		kick()
 		var po planOp
 		r := rng.Intn(100)
 		switch {
